@@ -208,8 +208,8 @@ where
         cx.call(ev2("mulmod", "uint.mul_mod", N, &p, &ma, &mb, "none").s("par", "panic"), || ok(&xa.mul_mod(&xb, &nzp)));
         cx.call(ev2("mulmod", "uint.mul_mod_vartime", N, &p, &ma, &mb, "none").s("par", "either"), || ok(&xa.mul_mod_vartime(&xb, &nzp)));
         cx.call(ev2("mulmod", "uint.MulMod", N, &p, &ma, &mb, "none").s("par", "exact"), || ok(&MulMod::mul_mod(&xa, &xb, &up)));
-        if it % 4 == 0 {
-            let (zp, za, zb) = zero_divisors(&mut cx.rng, N, it / 4);
+        if it % 4 == 0 || N == 1 {
+            let (zp, za, zb) = zero_divisors(&mut cx.rng, N, it);
             if vcmp(&za, &zp).is_lt() && vcmp(&zb, &zp).is_lt() {
                 let (ya, yb, yp) = (u::<N>(&za), u::<N>(&zb), u::<N>(&zp));
                 let nzq = nz::<N>(&zp).unwrap();
@@ -259,6 +259,25 @@ fn special<const N: usize>(cx: &mut Cx, iters: usize) {
         };
         let (xa, xb) = (u::<N>(&ma), u::<N>(&mb));
         cx.call(sv2("mulmod", "uint.mul_mod_special", N, c, &ma, &mb, "none").s("par", "exact"), || ok(&xa.mul_mod_special(&xb, lc)));
+        if it % 3 == 0 {
+            // composite special modulus p = 2^BITS - c = q*r with zero divisors a = q*t, b = r*u (a*b is an exact multiple of p)
+            let q = ((cx.rng.next() >> 34) | (1 << 29)) | 1;
+            let top = vpow2(64 * N);
+            let rr = fit(vdivsmall(&top, q), N);
+            let prod = vmul(&rr, &[q]);
+            let cz = vsub(&top, &prod);                  // 0 <= cz < q
+            if cz.len() <= 1 && cz.first().copied().unwrap_or(0) != 0 {
+                let czv = cz[0];
+                let t = 1 + cx.rng.below(1 << 10) as u64;
+                let za = fit(vmul(&[q], &[t]), N);
+                let zb = fit(vsub(&rr, &[cx.rng.below(1 << 10) as u64]), N);          // r*1 minus a little is not a multiple; use r itself below
+                let zb2 = rr.clone();
+                let (ya, yb, yb2) = (u::<N>(&za), u::<N>(&zb), u::<N>(&zb2));
+                let lz = Limb(czv);
+                cx.call(sv2("mulmod", "uint.mul_mod_special", N, czv, &za, &zb2, "none").s("par", "exact"), || ok(&ya.mul_mod_special(&yb2, lz)));
+                cx.call(sv2("mulmod", "uint.mul_mod_special", N, czv, &za, &zb, "none").s("par", "exact"), || ok(&ya.mul_mod_special(&yb, lz)));
+            }
+        }
         if it % 8 == 0 {
             if let Some((wa, wb_, is_add)) = wide_pair(&mut cx.rng, &p) {
                 let (xa, xb) = (u::<N>(&wa), u::<N>(&wb_));
@@ -319,8 +338,8 @@ fn boxed_general(cx: &mut Cx, iters: usize, maxl: usize) {
         let (xa, xb) = (bx(&ma), bx(&mb));
         cx.call(ev2("mulmod", "boxed.mul_mod", nl, &p, &ma, &mb, "none").s("par", "panic"), || okb(&xa.mul_mod(&xb, &bp)));
         cx.call(ev2("mulmod", "boxed.MulMod", nl, &p, &ma, &mb, "none").s("par", "either"), || okb(&MulMod::mul_mod(&xa, &xb, &bp)));
-        if it % 4 == 0 {
-            let (zp, za, zb) = zero_divisors(&mut cx.rng, nl, it / 4);
+        if it % 4 == 0 || nl == 1 {
+            let (zp, za, zb) = zero_divisors(&mut cx.rng, nl, it);
             if vcmp(&za, &zp).is_lt() && vcmp(&zb, &zp).is_lt() {
                 let (ya, yb, yp) = (bx(&za), bx(&zb), bx(&zp));
                 cx.call(ev2("mulmod", "boxed.mul_mod", nl, &zp, &za, &zb, "none").s("par", "panic"), || okb(&ya.mul_mod(&yb, &yp)));
@@ -371,6 +390,17 @@ fn boxed_special(cx: &mut Cx, iters: usize, maxl: usize) {
 fn zero_divisors(r: &mut Rng, n: usize, it: usize) -> (Vec<u64>, Vec<u64>, Vec<u64>) {
     let bits = 64 * n;
     let hb = bits / 2;
+    if n == 1 && it % 2 == 1 {
+        // single-limb modulus just above 2^63, operands close to it: the 2-by-1 reciprocal estimate is then one too small
+        // for a good fraction of the exact multiples
+        let q = (1u64 << 30) + (r.next() >> 35) | 1;
+        let mut rr = ((1u128 << 63) / q as u128) as u64 + 1; rr |= 1;
+        let p = (q as u128) * (rr as u128);
+        if p >> 64 == 0 && p >> 63 == 1 {
+            let (t, u_) = (rr - 2 * (1 + r.below(1 << 8) as u64), q - 2 * (1 + r.below(1 << 8) as u64));
+            return (vec![p as u64], vec![q.wrapping_mul(t)], vec![rr.wrapping_mul(u_)]);
+        }
+    }
     let half = |r: &mut Rng| -> Vec<u64> { let mut v = nat(r, n); v = vmask(&v, hb); v[0] |= 1; let top = vpow2(hb - 1); vadd(&vmask(&v, hb - 1), &top) };   // odd, exactly hb bits
     let q = half(r);
     let rr = if it % 3 == 0 { q.clone() } else { half(r) };
